@@ -61,6 +61,7 @@ class Client:
         self.w = world
         self.tamper = tamper
         self.log = []           # (index, kind, url, status)
+        self.manifest_texts = []        # every manifest body handed to the validator (line numbers of errors refer to them)
         self.n = 0
         self.exceptions = []
 
@@ -91,6 +92,11 @@ class Client:
             if t is not None:
                 v = t
         self.log.append((idx, kind, url, v.status_code))
+        if kind == 'manifest' and v.status_code == 200:
+            try:
+                self.manifest_texts.append(v.get_data(as_text=True))
+            except Exception:
+                pass
         return v
 
     async def get(self, url, headers=None, params=None, status=None, xhr=False):
